@@ -74,6 +74,7 @@ class ChipLedger(Monitor):
         self.bets = [0] * self.n
         self.pot = 0
         self.seen = 0
+        self.returned = 0
 
     def fail(self, st, op, what, **sig):
         raise Violation('C01.' + what.split(':')[0], f'{what} after operation #{len(st.operations)} {op!r}; '
@@ -105,6 +106,8 @@ class ChipLedger(Monitor):
                 back = self.bets[i] - op.bets[i]
                 if not nonneg(back):
                     self.fail(st, op, 'collection: more collected than was bet')
+                if back:
+                    self.returned += 1
                 self.stacks[i] += back
                 self.pot += op.bets[i]
                 self.bets[i] = 0
@@ -193,7 +196,7 @@ def run(ch, ctx):
     ctx.count('pushes', names.count('ChipsPushing'))
     ctx.count('short_forced_bet', any(cfg['stacks'][i] < cfg['bb'] for i in range(cfg['n'])))
     ctx.count('custom_variant', 'custom' in cfg)
-    ctx.count('uncalled_returned', any(
-        type(op).__name__ == 'BetCollection' and i > 0 and sum(op.bets) < sum(
-            getattr(p, 'amount', 0) for p in ()) for i, op in enumerate(st.operations)))
+    ctx.count('uncalled_returned', mon.init and mon.returned > 0)
+    ctx.count('odd_chip_pushes', sum(1 for op in st.operations if type(op).__name__ == 'ChipsPushing'
+                                     and len({a for a in op.amounts if a}) > 1))
     std_finish(world, ctx, wager)
